@@ -21,7 +21,8 @@ import (
 //     members hold their distinguished non-zero value, plus the diagonal
 //     (j-th value of every member);
 //   - dynamic values 'm': a fixed list of concrete (signature, value) pairs
-//     covering scalars, a string, an 8-bit scalar, a list, a tuple, a map;
+//     covering every scalar kind, a string, void, lists, a tuple, a map
+//     (reduced set deeper: i, s, [i]);
 //   - objects 'o': the all-empty description and the distinguished one (one
 //     method with one parameter, one signal, one property).
 
@@ -47,7 +48,7 @@ func str(t *refmodel.Type, s string) *refmodel.Datum { return &refmodel.Datum{T:
 var long255 = strings.Repeat("0123456789abcdef", 16)[:255]
 
 // dynSigs are the concrete types carried by the enumerated dynamic values.
-var dynFull = []string{"i", "s", "b", "C", "d", "[i]", "(is)", "{sI}", "v", "[s]"}
+var dynFull = []string{"i", "s", "b", "C", "d", "[i]", "(is)", "{sI}", "v", "[s]", "c", "w", "W", "I", "l", "L", "f"}
 var dynReduced = []string{"i", "s", "[i]"}
 
 // Dist returns the distinguished non-zero value of a type.
